@@ -51,6 +51,10 @@ type config struct {
 	// PolicyDefault: the default action of the recorded policy ("" / "allow", or "log": allowed and logged - to every probe the
 	// same as allow). What the flags do must not depend on what the policy says.
 	PolicyDefault string `json:"policy_default"`
+	// Oversize: the recorded policy has several groups, each well inside the kernel's limit of 4096 instructions, that together
+	// exceed it; the probe syscall is denied by the LAST group. The kernel refuses such a program (an error: nothing is promised);
+	// a nil result is only admissible with the statement's coverage, whatever was done to make the policy fit
+	Oversize bool `json:"oversize"`
 	// Jail: the process changes its root to this (empty) directory first (no /proc, nothing to read): thread-sync is the kernel's
 	// business and must not depend on what the process can see of itself in a file system (root only)
 	Jail string `json:"jail"`
@@ -227,6 +231,18 @@ func main() {
 		if cfg.PolicyDefault == "log" {
 			pol.DefaultAction = seccomp.ActionLog
 			pol.Syscalls = append(pol.Syscalls, seccomp.SyscallGroup{Action: seccomp.ActionAllow, Names: []string{"read", "write"}})
+		}
+		if cfg.Oversize {
+			var groups []seccomp.SyscallGroup
+			for g := 0; g < 4; g++ {
+				var nwc []seccomp.NameWithConditions
+				for i := 0; i < 350; i++ {
+					nwc = append(nwc, seccomp.NameWithConditions{Name: probe.Syscalls[3+g].Name, Conditions: []seccomp.Condition{
+						{Argument: uint32(i % 6), Operation: seccomp.Equal, Value: uint64(1000 + i)}}})
+				}
+				groups = append(groups, seccomp.SyscallGroup{Action: seccomp.ActionErrno, NamesWithCondtions: nwc})
+			}
+			pol.Syscalls = append(groups, pol.Syscalls...)
 		}
 		if cfg.Preload && cfg.PreloadOther {
 			other := seccomp.Policy{DefaultAction: seccomp.ActionAllow,
